@@ -244,7 +244,7 @@ pub fn run(run: &Run) {
         });
     }
     let maxlen = run.tier.pick(300usize, 10_000usize);
-    let lens: Vec<usize> = if run.thorough() { (2..=300).chain([1000, 4097, 10_000]).collect() } else { (2..=maxlen).collect() };
+    let lens: Vec<usize> = if run.thorough() { (2..=1100).chain([2047, 2048, 2049, 2050, 4096, 4097, 8193, 10_000]).collect() } else { (2..=maxlen).chain([511, 512, 513, 1000, 1023, 1024, 1025, 1026, 2048, 2049, 4097, 10_000]).collect() };
     lens.par_iter().for_each(|&n| {
         let y: Vec<f64> = (0..n).map(|i| ((i * 5) % 7) as f64 - 3.0).collect();
         let x: Vec<f64> = (0..n).map(|i| i as f64 * 0.5 + ((i % 3) as f64) * 0.125).collect();
@@ -253,8 +253,11 @@ pub fn run(run: &Run) {
         let want = (1..n).map(|i| DD::new((y[i] + y[i - 1]) / 2.0) * (DD::new(x[i]) - DD::new(x[i - 1]))).fold(DD::ZERO, |a, b| a + b).f();
         let scale: f64 = (1..n).map(|i| ((y[i] + y[i - 1]) / 2.0 * (x[i] - x[i - 1])).abs()).sum();
         judge(run, "trapezoid/long", guard(|| trapezoid(&y, Some(&x), None)), want, 4.0 * n as f64 * U * scale + 1e-300, &|| format!("trapezoid(len {})", n));
+        run.case();
+        let want_dx = (1..n).map(|i| DD::new((y[i] + y[i - 1]) / 2.0) * DD::new(0.25)).fold(DD::ZERO, |a, b| a + b).f();
+        judge(run, "trapezoid/long-dx", guard(|| trapezoid(&y, None, Some(0.25))), want_dx, 4.0 * n as f64 * U * (n as f64) + 1e-300, &|| format!("trapezoid(len {}, dx=0.25)", n));
     });
-    run.bound("sample arrays", format!("all sets/ordinates up to length 6; structured arrays of length 2..={}", maxlen));
+    run.bound("sample arrays", format!("all sets/ordinates up to length 6; structured arrays of every length 2..={} plus lengths around 512, 1024, 2048, 4096 and 10000", maxlen));
     run.assume("exactness is decided on the monomial basis with tolerance 64·N·u·(b-a)·max|f| (N = number of integrand evaluations); together with the linearity check this covers the polynomial class");
     run.assume("romberg tolerance clause: |error| ≤ 10·eps·max(1,|I|) on 20 analytic integrands with a 20-level budget");
 }
